@@ -45,6 +45,7 @@ def make_cases(ctx, fa, n, label="rt"):
     while len(cases) < n and tries < n * 5:
         tries += 1
         g = gen.Gen(rnd, logical=False, max_depth=rnd.choice([1, 2, 2, 3]), big=(rnd.random() < 0.2))
+        g.typed_arrays = True
         ir = g.schema()
         raw = g.render(ir)
         k = rnd.choice([1, 2, 2, 3])
